@@ -25,6 +25,24 @@ CHECKS = {
     ),
 }
 
+CHECKS["C01"] = (
+    "model_checking",
+    "bounded-exhaustive enumeration of definitions x configurations x values (parsed and directly constructed) with round-trip oracle on the real code; exhaustive overflow table",
+    "For every definition in the bounded spaces (as C03), both endiannesses, both layouts and both readers, every value obtained by parsing "
+    "a deviation-bounded model-encoded input or raw pattern, and every value constructed directly from the model's plain values, is dumped "
+    "(4 call forms) and parsed back: equal by the library's == and by normalised comparison, consuming exactly len(dumps(v)). The overflow "
+    "table (14 integer types, enums/flags over 6 bases, 4 pointer widths x 6 contexts x 5 out-of-range values x 2 endiannesses) must raise.",
+    "DESIGN.md 6 (C01)",
+)
+CHECKS["C02"] = (
+    "model_checking",
+    "bounded-exhaustive enumeration of definitions x configurations x inputs; reference model run in lock-step (value, consumed bytes, data-bit mask) with the real reader and writer",
+    "Same spaces as C01/C03. Inputs are model encodings with junk in all padding and unassigned bit-field bits; the real parser's value and "
+    "consumed length must equal the model's, dumps() must have exactly the consumed length, equal the input at every bit of the model's "
+    "data mask and be zero at every other bit.",
+    "DESIGN.md 6 (C02)",
+)
+
 NOT_APPLICABLE = {}
 
 
